@@ -97,8 +97,8 @@ enum kind { SUPERPOSED, COMPOSITE, DISJOINT, COHERENT };
 static const char* kind_name[] = { "superposed", "composite", "disjoint", "coherent" };
 enum modulation_kind { NONE, PAIR, BOXCAR, SQUARE };
 struct config { kind k; double sa[4], sb[4]; double f; unsigned n; double coherence;
-  modulation_kind mk; double dA, dB, rho; unsigned width; unsigned lag;
-  config () { f = 0.5; n = 1; coherence = 0; mk = NONE; dA = dB = rho = 0; width = 1; lag = 0; k = SUPERPOSED; } };
+  modulation_kind mk; double dA, dB, rho; unsigned width; unsigned lag; unsigned skip;
+  config () { f = 0.5; n = 1; coherence = 0; mk = NONE; dA = dB = rho = 0; width = 1; lag = 0; skip = 0; k = SUPERPOSED; } };
 struct built { combination* s; covariant_coordinator* co; built () : s (0), co (0) { } };
 static built make (const config& c, BoxMuller* g)
 {
@@ -129,9 +129,15 @@ static void realise (const config& c, BoxMuller* g, const std::vector<double>& r
 {
   built b = make (c, g); sample* sp = b.s;
   unsigned ir = 0;
+  for (unsigned k=0; k<c.skip; k++) { random_script = rnd.at (0); sp->get_Stokes (); }     // samples generated (and discarded) before the observed one
   random_script = rnd.at (ir ++); S0 = sp->get_Stokes (); S1 = S0;
   for (unsigned l=0; l<c.lag; l++) { random_script = rnd.at (ir ++); S1 = sp->get_Stokes (); }
-  delete b.s;
+  // release everything the realisation allocated (hundreds of thousands of realisations per configuration)
+  mode* ends[2] = { b.s->A, b.s->B }; delete b.s;
+  for (mode* m : ends) while (m) { mode_decorator* d = dynamic_cast<mode_decorator*> (m); mode* inner = d ? d->get_source () : 0;
+    if (boxcar_modulated_mode* bx = dynamic_cast<boxcar_modulated_mode*> (m)) (void) bx;
+    delete m; m = inner; }
+  delete b.co;
 }
 // expectation over the Gaussian deviates and the modulation draws, for fixed uniform draws
 static moments2 inner_moments (const config& c, BoxMuller* g, const std::vector<double>& rnd)
@@ -172,8 +178,8 @@ static moments2 ensemble (const config& c, BoxMuller* g)
 static std::string describe (const config& c)
 {
   char b[400]; const char* mkn[] = { "unmodulated", "two-point pair", "boxcar", "square" };
-  snprintf (b, 400, "%s A=(%g,%g,%g,%g) B=(%g,%g,%g,%g) f=%g n=%u coh=%g modulation=%s dA=%g dB=%g rho=%g width=%u lag=%u", kind_name[c.k], c.sa[0], c.sa[1], c.sa[2], c.sa[3],
-            c.sb[0], c.sb[1], c.sb[2], c.sb[3], c.f, c.n, c.coherence, mkn[c.mk], c.dA, c.dB, c.rho, c.width, c.lag);
+  snprintf (b, 400, "%s A=(%g,%g,%g,%g) B=(%g,%g,%g,%g) f=%g n=%u coh=%g modulation=%s dA=%g dB=%g rho=%g width=%u lag=%u after %u earlier sample(s)", kind_name[c.k], c.sa[0], c.sa[1], c.sa[2], c.sa[3],
+            c.sb[0], c.sb[1], c.sb[2], c.sb[3], c.f, c.n, c.coherence, mkn[c.mk], c.dA, c.dB, c.rho, c.width, c.lag, c.skip);
   return b;
 }
 static void compare (const config& c, BoxMuller* g, bool mean_only = false, double tol = 1e-9)
@@ -315,6 +321,14 @@ int main (int argc, char** argv)
       c.mk = PAIR; c.dA = 0.5; c.dB = 0.25; c.rho = rho;
       c.k = SUPERPOSED; compare (c, &gasdev);
       for (double f : { 0.0, 0.5, 0.7, 1.0 }) { c.f = f; c.k = COMPOSITE; compare (c, &gasdev); c.k = DISJOINT; compare (c, &gasdev, false, 1e-8); } } }, 1);
+  // the statistics of a sample do not depend on how many samples the same object produced before it (the covariant
+  // factors of the two modes stay paired from sample to sample): the second sample of one object, unequal counts
+  fn ("dual_later_sample_exact_plain", [&] {
+    const double st[][4] = { {1,0.3,-0.2,0.4}, {2,1,1,-1} };
+    for (double f : { 0.25, 0.7 }) { config c; c.k = COMPOSITE; c.n = 3; c.f = f; c.skip = 1; for (int i=0; i<4; i++) { c.sa[i] = st[0][i]; c.sb[i] = st[1][i]; }
+      c.mk = PAIR; c.dA = 0.5; c.dB = 0.25; c.rho = 0.6; compare (c, &gasdev); }
+    { config c; c.k = SUPERPOSED; c.n = 2; c.skip = 1; for (int i=0; i<4; i++) { c.sa[i] = st[0][i]; c.sb[i] = st[1][i]; } c.mk = PAIR; c.dA = 0.5; c.dB = 0.25; c.rho = -0.5; compare (c, &gasdev); }
+  }, 1);
   fn ("dual_lagged_exact_plain", [&] {
     const double st[][4] = { {1,0.3,-0.2,0.4}, {2,1,1,-1} };
     for (unsigned n=1; n<=2; n++) for (unsigned lag=0; lag<=1; lag++) for (int mk=0; mk<3; mk++) {
